@@ -5,6 +5,11 @@ pid = sys.argv[1]
 variant = sys.argv[2] if len(sys.argv) > 2 else "a"
 rec = [json.loads(l) for l in open("/verif/properties.jsonl") if json.loads(l)["id"] == pid][0]
 wt = f"/tmp/seed-{pid}{variant}"
+# later rounds: a property-independent nudge away from the most obvious code site (no information about the checks)
+NUDGE = "" if variant < "e" else ("(2b) do NOT take the first code site or mechanism that comes to mind: look through ALL files, entry points, "
+    "keyword options and code paths that the property's statement, quantifier and anchors mention (also the rarely used ones: optional "
+    "arguments with non-default values, alternative input types, the 3-D / n-D variants, helper functions shared by several entry points) "
+    "and pick one that a quick reviewer would be least likely to exercise.\n ")
 print(f"""You are helping to evaluate a verification effort for the open-source Python library `virocon` (environmental contours from hierarchical joint distributions). Your job is to play the role of a developer who introduces a subtle bug.
 
 Work ONLY in your own scratch git worktree of the repository; create it first:
@@ -20,7 +25,7 @@ Here is a semantic property that virocon is supposed to satisfy (JSON record):
 Task: make ONE small, realistic change to the library source under {wt}/virocon that BREAKS this property, while
  (1) the code still imports and the EXISTING test suite still passes unchanged (run at least the test files that touch the code you changed with `cd {wt} && /venv/bin/python -m pytest -q -p no:cacheprovider tests/<file>.py`, and before you finish the whole suite once: `cd {wt} && /venv/bin/python -m pytest -q -p no:cacheprovider --timeout=900` — it takes 3-8 minutes; `tests/test_workflows.py::test_v_hs_hd_contour` fails already without your change because a dataset file is empty, ignore that one);
  (2) the bug needs something SPECIFIC to manifest — a particular kind of input, an unusual but legitimate option combination, a multi-step sequence of operations, a boundary value, a tie, an ordering, or two sites that each look fine alone — NOT something ordinary use or the existing tests would expose at once. Think of the kind of slip a tired maintainer makes in a refactoring: an off-by-one, `<` for `<=`, a swapped index or column, a stale variable, a dropped normalisation or copy, a wrong default, an edge case handled for 2-D but not 3-D. The change should look plausible in code review (no comments announcing it, no dead code). Prefer a change in the code the property's anchors point to.
- (3) you write a small demonstration program `{wt}/demo_{pid}.py` that uses only virocon's public behaviour (plus numpy/scipy), is deterministic (fix seeds), runs in under 2 minutes, exits 0 and prints PASS on the ORIGINAL code and exits 1 and prints FAIL (with the concrete numbers that show the property is violated) on your CHANGED code. Verify both: run it with your change, then save your diff (`git diff -- virocon > patch.diff`), reverse it (`git apply -R patch.diff`), run the demo again, and re-apply (`git apply patch.diff`). Do NOT use `git stash` (the stash is shared between all worktrees of the repository and other people are working in theirs).
+ {NUDGE}(3) you write a small demonstration program `{wt}/demo_{pid}.py` that uses only virocon's public behaviour (plus numpy/scipy), is deterministic (fix seeds), runs in under 2 minutes, exits 0 and prints PASS on the ORIGINAL code and exits 1 and prints FAIL (with the concrete numbers that show the property is violated) on your CHANGED code. Verify both: run it with your change, then save your diff (`git diff -- virocon > patch.diff`), reverse it (`git apply -R patch.diff`), run the demo again, and re-apply (`git apply patch.diff`). Do NOT use `git stash` (the stash is shared between all worktrees of the repository and other people are working in theirs).
 
 Deliver, in {wt}:
   - `patch.diff`  : output of `git diff -- virocon` (only library source, applies with `git apply` to the repository HEAD);
